@@ -584,6 +584,59 @@ def nested_autocharge(rng, k=0):
     return 'scen:nestedauto', u.lines(), ops, meta_of(ops, u.attr_ids(), setup)
 
 
+def resist_mix(rng, k=0):
+    """one attribute of a ship receives a resisted projected modification and several unresisted local ones
+    (an implant, rigs): the resistance applies to the projected one only, whatever order they are gathered in"""
+    R, X, S, L1 = 1003, 1010, 1001, 1002
+    u = U()
+    for a in (R, X, S, L1):
+        u.attr(a)
+    u.effect(2001, EC.target, [U.mod(F.item, D.target, X, OP.post_percent, S)], resist=R)
+    u.effect(2002, EC.passive, [U.mod(F.item, D.ship, X, OP.post_percent, L1)])
+    u.effect(2003, EC.passive, [U.mod(F.item, D.ship, X, [OP.post_mul, OP.mod_add, OP.post_percent][k % 3], L1)])
+    u.type(3100, 50, int(TC.ship), {R: Fraction(1, 2), X: 1000})
+    u.type(3200, 51, int(TC.module), {S: rng.choice([-60, 40])}, [2001], default=2001)
+    u.type(3600, 52, None, {L1: rng.choice([10, 20])}, [2002])
+    u.type(3500, 53, int(TC.implant), {L1: rng.choice([2, 30])}, [2003])
+    ops = base_world(2) + ['new 10 ship 3100 1 0', 'new 11 ship 3100 1 0', 'new 12 modhigh 3200 3 0',
+                           'new 14 rig 3600 1 0', 'new 15 rig 3600 1 0', 'new 16 implant 3500 1 0',
+                           'slot 1 ship 10', 'slot 2 ship 11', 'rappend 1 high 12']
+    setup = len(ops)
+    order = [['sadd 2 rigs 14', 'target 12 11', 'sadd 2 implants 16', 'sadd 2 rigs 15'],
+             ['target 12 11', 'sadd 2 rigs 14', 'sadd 2 rigs 15', 'sadd 2 implants 16'],
+             ['sadd 2 implants 16', 'sadd 2 rigs 15', 'sadd 2 rigs 14', 'target 12 11']][(k // 3) % 3]
+    for o in order:
+        ops += [o, 'get 11 %d' % X]
+    ops += ['target 12 -', 'get 11 %d' % X, 'target 12 11', 'get 11 %d' % X]
+    return 'scen:resistmix', u.lines(), ops, meta_of(ops, u.attr_ids(), setup)
+
+
+def slot_zero(rng, k=0):
+    """slot number 0 of implants / boosters: an item in slot 0 under one source is absent from (or elsewhere
+    under) the next, where another item takes slot 0; validation after the switch equals validation of the
+    fit built under the new source"""
+    IDX = int([AttrId.implantness, AttrId.boosterness][k % 2])
+    cls, setn = [('implant', 'implants'), ('booster', 'boosters')][k % 2]
+    u = U()
+    u.attr(IDX)
+    u.attr(1010)
+    u.type(3100, 50, int(TC.ship), {1010: 100})
+    u.type(3500, 53, None, {IDX: 0})
+    u.type(3501, 53, None, {IDX: 1})
+    u2 = U()
+    u2.u.attrs, u2.u.effects, u2.u.buffs = u.u.attrs, u.u.effects, u.u.buffs
+    u2.u.types = {t: dict(v) for t, v in u.u.types.items() if t != 3500 or k % 3 == 2}
+    u2.u.types[3501] = dict(u2.u.types[3501], attrs={IDX: Fraction(0)})
+    if 3500 in u2.u.types:
+        u2.u.types[3500] = dict(u2.u.types[3500], attrs={IDX: Fraction(2)})
+    ops = ['solsys 1', 'fit 1 1', 'source 1 1', 'ssadd 1 1', 'new 10 ship 3100 1 0', 'new 20 %s 3500 1 0' % cls,
+           'new 21 %s 3501 1 0' % cls, 'slot 1 ship 10', 'sadd 1 %s 20' % setn, 'sadd 1 %s 21' % setn]
+    setup = len(ops)
+    ops += ['get 10 1010', 'source 1 2', 'get 10 1010', 'source 1 1', 'get 10 1010', 'source 1 2', 'srm 1 %s 20' % setn,
+            'get 10 1010']
+    return 'scen:slotzero', u.u.lines(1) + u2.u.lines(2), ops, meta_of(ops, u.attr_ids(), setup)
+
+
 COMMANDS = {'solsys', 'fit', 'new', 'source', 'ssadd', 'ssrm', 'ssclear', 'slot', 'sadd', 'srm', 'sclear', 'skilldel',
             'rappend', 'rinsert', 'rplace', 'requip', 'rremove', 'rfree', 'rclear', 'charge', 'state', 'target',
             'mode', 'level', 'fladd', 'flrm', 'flclear', 'get', 'read', 'keys', 'm_mod', 'm_pymod', 'm_effect',
@@ -592,14 +645,14 @@ COMMANDS = {'solsys', 'fit', 'new', 'source', 'ssadd', 'ssrm', 'ssclear', 'slot'
 SCENARIOS = [cap_moves, resist_moves, chain_over_projection, burst_charge, buff_tie, retarget_reload, slot_index,
              propulsion, ancillary, propulsion_batch, rejected_assignment, autocharge_state, burst_nobase,
              refused_join, unloaded_container, drone_target, self_skillrq,
-             nested_autocharge]
+             nested_autocharge, resist_mix, slot_zero]
 
 
 def scenarios(rng, tier):
     n = 3 if tier == 'quick' else 60
     out = []
     for fn in SCENARIOS:
-        for k in range(max(n, {burst_charge: 6, propulsion_batch: 4, burst_nobase: 4, drone_target: 4}.get(fn, n))):
+        for k in range(max(n, {burst_charge: 6, propulsion_batch: 4, burst_nobase: 4, drone_target: 4, resist_mix: 5}.get(fn, n))):
             name, ul, ops, meta = fn(rng, k)
             bad = [l for l in ops if l.split()[0] not in COMMANDS]
             assert not bad, 'scenario %s uses unknown commands %r' % (name, bad)
